@@ -79,6 +79,7 @@ func genRoar(t *rapid.T) roarCase {
 
 func runRoar(c roarCase, r *pb.Rec) error {
 	var bm setz.RoaringBitmap // zero value must be usable
+	earlySeq := bm.All()      // obtained on the empty zero value, ranged at every enumeration step
 	model := map[uint32]struct{}{}
 	count := map[int]int{}    // per bucket index
 	dense := map[int]bool{}   // implementation stores this bucket as a bitmap
@@ -298,6 +299,20 @@ func runRoar(c roarCase, r *pb.Rec) error {
 					}
 				}
 				r.ClassIf(len(want) > 1, "two enumerations alive at once")
+			}
+			{
+				k := 0
+				earlySeq(func(v uint32) bool {
+					if k < len(want) && v == want[k] {
+						k++
+					} else {
+						k = -1 << 30
+					}
+					return true
+				})
+				if k != len(want) {
+					return fmt.Errorf("step %d: an All() sequence obtained while the bitmap was still empty does not enumerate the %d members in order", step, len(want))
+				}
 			}
 			// the sequence value returned by All() is reusable: ranging it again (also after an early break)
 			// enumerates the whole set again
